@@ -9,9 +9,10 @@ C08 — conversions among graph, stabilizer and density-matrix forms preserve th
   * `state_to_graph` and `stabilizer_to_graph` are also MODELLED (Model/StateToGraph.lean, `stab.tograph` / `stab.s2g`): on every input
     above the model's result (graph, gate list, error class) is compared exactly with the implementation's; theorem
     C08.state_to_graph_sound then makes exactness of every returned result a theorem about the modelled code.
-Known finding D40: `state_to_graph` raises on many stabilizer states (Hadamard-position heuristic); the exact model raises too.
-Known finding D49: `state_to_graph` raises on some valid states only because `np.linalg.det(..).astype(int)` truncates a float
-determinant (3 computed as 2.9999999999999996 -> 2): the exact model returns, and so does the implementation once det/inv are exact.
+Completeness: `state_to_graph` must return on EVERY stabilizer state (theorem C08.state_to_graph_complete for the model); an exception of
+the implementation on a valid state is a violation.  Regression inputs of the repaired D40 (`_position_finder` assumed a pivot at
+(0,0)): |0>, |0>|+>, |0> x Bell.  A raise that disappears when det/inv are computed exactly is keyed as the float artefact D49
+(`np.linalg.det(..).astype(int)` truncating 2.9999999999999996 -> 2; repaired, kept as a classification).
 """
 import itertools
 
@@ -37,7 +38,7 @@ ASSUMPTIONS = [
     "n >= 1 (row_reduction does not terminate on a 0 x 0 matrix)",
 ]
 
-KEY_D40 = "state_to_graph:position-finder:raises"
+KEY_RAISES = "state_to_graph:valid-state:raises:assertion"
 KEY_D49 = "state_to_graph:float-determinant-truncated:raises"
 
 
@@ -225,11 +226,6 @@ def classify_raise(res, inp, impl, rep):
     if impl[1] != "assertion":
         res.violation(f"state_to_graph:raises:{impl[1]}", f"state_to_graph raised {impl[1]}: {impl[2]}", input=inp)
         return model_ok is False and rep["_raw"].split()[1] == impl[1]
-    if not model_ok:
-        # D40: with exact GF(2) arithmetic the conversion fails too — the Hadamard positions of _position_finder leave the X part singular
-        res.count("errors", "D40:position-finder")
-        res.violation(KEY_D40, f"state_to_graph raises AssertionError('{impl[2]}') on a valid stabilizer state (so does the exact model: _position_finder)", input=inp)
-        return rep["_raw"].split()[1] == "assertion"
     # the exact model returns: is floating point the only difference?
     with ExactLinalg():
         again = impl_state_to_graph(tab)
@@ -238,7 +234,10 @@ def classify_raise(res, inp, impl, rep):
         res.violation(KEY_D49, f"state_to_graph raises AssertionError('{impl[2]}') on a valid stabilizer state although exact arithmetic converts it: "
                       "np.linalg.det(x).astype(int) truncates the float determinant", input=dict(inp, exact_result=again))
         return True
-    return False
+    res.count("errors", "raises:assertion")
+    res.violation(KEY_RAISES, f"state_to_graph raises AssertionError('{impl[2]}') on a valid stabilizer state (exact arithmetic does not help)",
+                  input=dict(inp, model=rep["_raw"][:200]))
+    return model_ok is False and rep["_raw"].split()[1] == "assertion"
 
 
 def flush(res, drv, pending):
@@ -386,7 +385,9 @@ def check_node_order(ctx, res, adj):
         res.violation(f"convert:node-order:raises:{err_class(e)}", f"conversion raised {err_class(e)}: {str(e)[:100]}", input=inp)
 
 
-D40_WITNESS = "n=1 x=0 z=1 r=0"
+# states whose qubit 0 has no X component after row reduction (|0>, |0>|+> = <ZX, ZI>, |0> x Bell = <IXX, ZII, IZZ>): state_to_graph raised
+# on them before the repair of D40 (/repo 86ab4f1); they must convert
+FORMER_D40 = ["n=1 x=0 z=1 r=0", "n=2 x=0100 z=1010 r=00", "n=3 x=011000000 z=000100011 r=000"]
 # smallest witness found for D49 (5 qubits): float det*inv of the X part after the Hadamards is not integral enough for astype(int)
 D49_WITNESS = "n=5 x=0000000000000001100000000 z=1111000011001010101011001 r=00110"
 
@@ -402,8 +403,8 @@ def run(ctx, budget=1.0):
     drv = Driver()
     rng = ctx.rng
     pending = []
-    # corpus: D40 witness (one-qubit |0>)
-    check_state_to_graph(ctx, res, drv, stab_of_args(D40_WITNESS), pending, "corpus:D40")
+    for w in FORMER_D40:
+        check_state_to_graph(ctx, res, drv, stab_of_args(w), pending, "corpus:former-D40")
     check_state_to_graph(ctx, res, drv, stab_of_args(D49_WITNESS), pending, "corpus:D49")
     nmax = 4 if ctx.quick else 5
     for n in range(1, nmax + 1):
